@@ -11,7 +11,7 @@ import time
 from fibertree import Fiber, Tensor, Payload
 
 from mc import bfs, core
-from mc.obs import rawtree, rawfull, rank_index_view, content, unbox
+from mc.obs import hidden_globals, rawtree, rawfull, rank_index_view, content, unbox
 from mc.univ import mktree, tree_content, RANK_IDS
 
 LEVEL = "model_checking"
@@ -47,14 +47,26 @@ def build(init):
     # then all non-default); with the float default 0.5 the full alphabet of writes is used
     S.default = init[5] if len(init) > 5 else 0
     S.readonly = S.default != 0 and isinstance(S.default, int)
+    # optional 7th element: coordinate base (coordinates base .. base+shape-1; -1 puts a negative coordinate in)
+    S.base = init[6] if len(init) > 6 else 0
     ids = RANK_IDS[:depth]
     if spec is None:
         S.T = Tensor(rank_ids=list(ids), shape=list(shape), default=S.default)
     else:
-        S.T = Tensor.fromFiber(list(ids), mktree(spec, depth, tag=0), shape=list(shape), default=S.default)
+        root = mktree(spec, depth, tag=0)
+        if S.base:
+            _shift(root, S.base)
+        S.T = Tensor.fromFiber(list(ids), root, shape=list(shape), default=S.default)
     S.model = dict(content(S.T.getRoot(), S.default))
     S.handles = []
     return S
+
+
+def _shift(f, base):
+    f.coords[:] = [c + base for c in f.coords]
+    for p in f.payloads:
+        if isinstance(p, Fiber):
+            _shift(p, base)
 
 
 def _stored_at(T, pt):
@@ -86,7 +98,7 @@ def ops(S):
     out = []
     d = S.depth
     for ln in range(1, d + 1):
-        for pt in itertools.product(*[range(S.shape[i]) for i in range(ln)]):
+        for pt in itertools.product(*[range(S.base, S.base + S.shape[i]) for i in range(ln)]):
             for mode in ("alloc", "noalloc", "dflt", "dflt0"):
                 out.append(("get", pt, mode))
             if ln < d:
@@ -95,6 +107,11 @@ def ops(S):
                     # fiber assignment through the handle of a partial point
                     for i in range(len(ASSIGN)):
                         out.append(("ref", pt, "asg%d" % i))
+                    # ... and from a stored sibling fiber of the same tensor, which stays alive: later writes
+                    # under either prefix must not show under the other
+                    for q in _paths(T.getRoot()):
+                        if len(q) == ln and q != pt:
+                            out.append(("ref", pt, "row", q))
             elif S.readonly:
                 out.append(("ref", pt, "none"))
             else:
@@ -133,7 +150,7 @@ def ops(S):
         if lvl not in S.poslevels:
             continue
         f = _fiber_at(T, path)
-        for c in range(S.shape[lvl]):
+        for c in range(S.base, S.base + S.shape[lvl]):
             legal = [None] + [i for i in range(len(f.coords)) if f.coords[i] <= c]
             for sp in legal:
                 for kind in ("pos", "posref", "getsp", "refsp"):
@@ -207,7 +224,7 @@ def step(S, op):
                 elif present or mode == "alloc":
                     V("getPayload", "prefix-not-a-fiber", sub, repr(r), "mode:" + mode)
         elif k == "ref":
-            _, pt, act = op
+            pt, act = op[1], op[2]
             r = acc.getPayloadRef(*pt)
             if _stored_at(T, pt) is not r:
                 V("getPayloadRef", "not-aliased", None, repr(r), "len:%d" % len(pt))
@@ -224,6 +241,20 @@ def step(S, op):
                 S.handles = [(q, h) for q, h in S.handles if q[:len(pt)] != pt]
                 if _stored_at(T, pt) is not r:
                     V("getPayloadRef", "assignment-detached-the-handle", None, repr(r), "act:assign-fiber")
+            if act == "row":
+                q = op[3]
+                src = _stored_at(T, q)
+                srcmodel = _sub_model(S.model, q)
+                r <<= src
+                for x in [x for x in S.model if x[:len(pt)] == pt]:
+                    del S.model[x]
+                for x, v in srcmodel.items():
+                    _put(S, pt + x, v)
+                S.handles = [(x, h) for x, h in S.handles if x[:len(pt)] != pt]
+                if _stored_at(T, pt) is not r:
+                    V("getPayloadRef", "assignment-detached-the-handle", None, repr(r), "act:assign-sibling")
+                if _stored_at(T, q) is not src:
+                    V("getPayloadRef", "assignment-replaced-the-source", None, None, "act:assign-sibling")
             if len(pt) == S.depth:
                 if not isinstance(r, Payload):
                     V("getPayloadRef", "leaf-not-boxed", None, repr(r))
@@ -325,7 +356,7 @@ def key(S):
     return (rawfull(T.getRoot()), rank_index_view(T),
             tuple(pt for pt, _ in S.handles),
             tuple(_stored_at(T, pt) is h for pt, h in S.handles),
-            tuple(sorted(S.model.items())))
+            tuple(sorted(S.model.items())), hidden_globals())
 
 
 # ---------------------------------------------------------------------------
@@ -381,6 +412,11 @@ def run(ctx):
     # depth 1, shape 3, via the root fiber, every start_pos
     d1 = [None, ('0', '1', '-'), ('-', '0', '2')]
     fams.append(("d1-3-viaF", [(1, (3,), s, "F", (0,)) for s in d1], None))
+    # the same over coordinates -1, 0, 1 (a negative coordinate; a fiber holding 0..n-1 is the dense special case)
+    fams.append(("d1-3-negative-base", [(1, (3,), s, "F", (0,), 0, -1) for s in (None, ('-', '1', '2'), ('1', '-', '0'))],
+                 None if not q else 4))
+    fams.append(("d2-2x2-negative-base", [(2, (2, 2), s, "T", (0,), 0, -1) for s in (None, (('0', '1'), None))],
+                 2 if q else 3))
     # leaf default 5 over fibers built with default 0, explicitly empty rows / empty interior fibers
     d2e = [((), ('1', '0')), (('-', '-'), ('0', '-')), (('1', '-'), ('-', '-'))]
     fams.append(("d2-2x2-default5", [(2, (2, 2), s, "T", (0, 1), 5) for s in d2e], None))
